@@ -100,7 +100,7 @@ class get_tokens_str:
                       'iterable.N == len(text)']},
         '0.0': {'inv': []},
     }
-    ensures = ['ACC == text']
+    ensures = ['ACC == old(text)']
     raises = []
     serves = ['C01', 'C02', 'C04', 'C19']
     witness_alphabet = ["'", '"', '$', '-', '/', '*', '\\', '\n', ' ', ';', 'a', '1', '\x00', '\ud800']
